@@ -88,3 +88,35 @@ Proof.
   apply read_numbered_renumber.
   rewrite !map_app, !map_snd_number. reflexivity.
 Qed.
+
+(* the same for sources given as PATHS (asm.assemble(path), the CLI): two files in directories with the same search path,
+   one with the include line, the other with the lines pasted *)
+Theorem whole_include_is_paste_files fuel fs cwd incs top1 top2 src1 src2 A raw B rel p inc consts labels cmp :
+  fs_exists fs cwd top1 = true -> fs_exists fs cwd top2 = true ->
+  fs_read fs cwd top1 = Some src1 -> fs_read fs cwd top2 = Some src2 ->
+  base_dir cwd top1 = base_dir cwd top2 ->
+  splitlines src1 = (A ++ raw :: B)%list ->
+  is_blank raw = false -> is_include raw = true -> include_target raw = Some rel ->
+  lookup fs cwd rel (incs ++ [base_dir cwd top1]) = Some p ->
+  read_file fuel fs cwd incs p = ROk inc ->
+  Forall (fun l => is_plain (l_contents l) = true) inc ->
+  splitlines src2 = (A ++ map l_contents inc ++ B)%list ->
+  wshape (assemble_model fuel fs cwd incs top1 consts labels cmp) =
+  wshape (assemble_model fuel fs cwd incs top2 consts labels cmp).
+Proof.
+  intros X1 X2 R1 R2 Hd S1 Hb Hi Ht Hl Hr Hp S2.
+  apply wshape_of_rkind. unfold read_lines. rewrite X1, X2. cbn [read_file]. rewrite R1, R2, S1, S2, <- Hd.
+  rewrite (number_app A 1 (raw :: B)). cbn [number].
+  set (k := 1 + Z.of_nat (List.length A)).
+  rewrite (rkind_contents _ _ (read_numbered_textual_splice (read_file fuel fs cwd incs) fs cwd top1 (incs ++ [base_dir cwd top1])
+             (number 1 A) k raw (number (k + 1) B) rel p inc Hb Hi Ht Hl Hr Hp (number k (map l_contents inc)) (map_snd_number _ _))).
+  apply read_numbered_renumber.
+  rewrite !map_app, !map_snd_number. reflexivity.
+Qed.
+
+(* and the working directory does not matter to the whole run when the paths handed to assemble are absolute *)
+From BB Require Import Proofs.ReaderCwd.
+Theorem whole_cwd fuel fs cwd1 cwd2 incs top consts labels cmp :
+  is_abs top = true -> all_abs incs -> fs_exists fs cwd1 top = true ->
+  assemble_model fuel fs cwd1 incs top consts labels cmp = assemble_model fuel fs cwd2 incs top consts labels cmp.
+Proof. intros Ht Hi He. unfold assemble_model. rewrite (read_lines_cwd fuel fs cwd1 cwd2 incs top Ht Hi He). reflexivity. Qed.
